@@ -554,6 +554,23 @@ def random_config(rng, project):
     def keylist(patterns, nmax=2):
         return [target_key(patterns) for _ in range(rng.randint(1, nmax))]
 
+    # "union rule" configurations: a module procedure is disabled globally (plain / scoped / pattern / module key) and
+    # one of its callers has its own routine-level lists that do not repeat the global entry
+    pairs = [(m_, t_) for m_ in procs for t_ in procs
+             if t_['mod'] and t_ is not m_ and t_['name'] in m_['calls'] and t_['name'] != m_['name']]
+    if pairs and rng.random() < 0.22:
+        m_, t_ = rng.choice(pairs)
+        n = t_['name']
+        gkey = rng.choice([n, n, f"{t_['mod']}#{n}", f"{t_['mod']}#{n}", n[:-1] + '?', '*#' + n, t_['mod']])
+        others = [v for md in mods for v in md['vars']] + [p['name'] for p in procs if p['name'] not in (n, m_['name'])]
+        own = [rng.choice(others)]
+        opts = rng.choice([{'disable': own}, {'disable': own}, {'disable': [], 'block': own}, {'disable': own, 'ignore': own},
+                           {'disable': own, 'block': [rng.choice(others)]}])
+        rkey = m_['name'] if uniq(m_) and rng.random() < 0.6 else f"{m_['mod']}#{m_['name']}"
+        routines = [routine_entry(rkey, **opts)]
+        if rng.random() < 0.3:
+            routines[0]['hasRole'], routines[0]['role'] = True, 'driver'
+        return make_config(seeds, expand=True, disable=[gkey], routines=routines)
     kw = {'disable': [], 'block': [], 'ignore': []}
     r = rng.random()
     if r < 0.22:
